@@ -16,7 +16,7 @@ def _methods_of(P, adt_id):
         if fn.impl and fn.kind == "method":
             tj = P.ty(fn.crate, fn.impl["self"])
             if tj["k"] == "adt" and tj["id"] == adt_id:
-                out.append(fn)
+                out.append(P.view(fn))
     return out
 
 
